@@ -149,6 +149,8 @@ type Effect struct {
 	CopyTo    string
 	DropMarks bool  // mark facts are not copied (Unmark results)
 	Keep      *Fact // this fact, if it held before the node, survives the node's assignment kill
+	ImplyIf   *Fact // after the node: wherever ImplyIf holds, ImplyThen holds too
+	ImplyThen *Fact
 }
 
 type FactSpec struct {
@@ -159,6 +161,8 @@ type FactSpec struct {
 	Effects func(n ast.Node) []Effect
 	// Entry facts.
 	Entry []Fact
+	// Invariants hold at every point, whatever was assigned (facts about index-parametrised subjects).
+	Invariants []Fact
 }
 
 type FactResult struct {
@@ -302,10 +306,24 @@ func (f *FuncCFG) transfer(spec *FactSpec, s factSet, n ast.Node) factSet {
 		for _, k := range kept {
 			s[k] = struct{}{}
 		}
+		for _, k := range spec.Invariants {
+			s[k] = struct{}{}
+		}
 	}()
-	// kills first
+	// kills first (a self copy x := x.Unmark() keeps everything but the mark facts of x)
+	selfCopy := map[string]bool{}
+	if spec.Effects != nil {
+		for _, e := range spec.Effects(n) {
+			if e.CopyTo != "" && e.CopyTo == e.CopyFrom {
+				selfCopy[e.CopyTo] = true
+			}
+		}
+	}
 	if keys := f.assignedKeys(n); len(keys) > 0 {
 		for k := range s {
+			if selfCopy[k.Subj] && k.Pred != "unmarked" && k.Pred != "deepunmarked" && k.Pred != "marked" {
+				continue
+			}
 			for _, key := range keys {
 				if strings.Contains(k.Subj, key) {
 					delete(s, k)
@@ -319,7 +337,12 @@ func (f *FuncCFG) transfer(spec *FactSpec, s factSet, n ast.Node) factSet {
 			if e.Assert != nil {
 				s[*e.Assert] = struct{}{}
 			}
-			if e.CopyTo != "" {
+			if e.ImplyIf != nil && e.ImplyThen != nil {
+				if _, ok := s[*e.ImplyIf]; ok {
+					s[*e.ImplyThen] = struct{}{}
+				}
+			}
+			if e.CopyTo != "" && e.CopyTo != e.CopyFrom {
 				var add []Fact
 				for k := range s {
 					if k.Subj == e.CopyFrom || strings.HasPrefix(k.Subj, e.CopyFrom+".") {
